@@ -129,15 +129,6 @@ type origin struct {
 	idx   ssa.Value
 }
 
-// originOf traces v (a value of the builder itself) back to one field of the receiver.
-func (b *builder) originOf(v ssa.Value, depth int) (*origin, string) {
-	var top *rctx
-	if b.rg != nil {
-		top = b.rg.top
-	}
-	return b.originIn(v, top, depth)
-}
-
 // originIn traces v, a value of activation c of the builder's region, back to one field of the receiver: a parameter of
 // a helper is followed to the argument at its call site.
 func (b *builder) originIn(v ssa.Value, c *rctx, depth int) (*origin, string) {
@@ -1217,27 +1208,6 @@ func derivesFromCertRaw(v ssa.Value, depth int) bool {
 		}
 	}
 	return false
-}
-
-type gatedLeaf struct {
-	v   ssa.Value
-	via []*ssa.BasicBlock // predecessor blocks of the phi edges the leaf comes through
-}
-
-func gatedLeaves(v ssa.Value, via []*ssa.BasicBlock, seen map[ssa.Value]bool) []gatedLeaf {
-	if seen[v] {
-		return nil
-	}
-	seen[v] = true
-	if ph, ok := v.(*ssa.Phi); ok {
-		var out []gatedLeaf
-		for i, e := range ph.Edges {
-			nv := append(append([]*ssa.BasicBlock{}, via...), ph.Block().Preds[i])
-			out = append(out, gatedLeaves(e, nv, seen)...)
-		}
-		return out
-	}
-	return []gatedLeaf{{v, via}}
 }
 
 // checkPrefixClosure: every tree that is serialised or signed on its own declares the namespace prefixes its nodes use.
